@@ -4,12 +4,14 @@ From GoCoap Require Import Base.Bytes Conn.MutexMap Conn.Model Conn.Spec Conn.Pr
 Import ListNotations.
 Open Scope Z_scope.
 
-(* udp/client/mutexmap.go, every schedule of n < 2^16 threads: the entry for k exists iff its
-   reference count is positive; the count is the number of threads between the map section of
-   Lock(k) and the map section of Unlock; at most one thread is in the critical section of k;
-   Unlock never panics; when no thread is inside, the map is empty *)
+(* udp/client/mutexmap.go, every schedule of n < 2^16 threads calling Lock, TryLock and Unlock in
+   any order (a step of the schedule = the next atomic section of a thread; a thread that is
+   outside chooses between Lock(k) and TryLock(k)): the entry for k exists iff its reference count
+   is positive; the count is the number of threads between the map section of Lock(k) -- or a
+   SUCCESSFUL TryLock(k) -- and the map section of Unlock; at most one thread is in the critical
+   section of k; Unlock never panics; when no thread is inside, the map is empty *)
 Theorem C13_mutexmap : forall n sched, Z.of_nat n < 65536 ->
-  let s := exec (MutexMap.init n) sched in
+  let s := exec2 (MutexMap.init n) sched in
   (forall k, match lookup (tab s) k with
              | Some e => cnt (heap s e) = count (inside k) (pcs s) /\ 0 < cnt (heap s e)
              | None => count (inside k) (pcs s) = 0
@@ -28,6 +30,35 @@ Proof.
   - exact (empty_when_all_out n Hn sched).
 Qed.
 Print Assumptions C13_mutexmap.
+
+(* ... in particular for schedules of Lock/Unlock only (the statement of round 1) *)
+Theorem C13_mutexmap_lock_only : forall n sched, Z.of_nat n < 65536 ->
+  let s := exec (MutexMap.init n) sched in
+  (forall k, (exists e, lookup (tab s) k = Some e) <-> 0 < count (inside k) (pcs s)) /\
+  ((forall t x, nth_error (pcs s) t = Some x -> x = Out) -> tab s = []).
+Proof.
+  intros n sched Hn. cbv zeta. rewrite exec_as_exec2. split.
+  - apply (entry_iff_referenced n Hn).
+  - exact (empty_when_all_out n Hn _).
+Qed.
+Print Assumptions C13_mutexmap_lock_only.
+
+(* TryLock(k) of a thread that is outside, in any reachable state: when the lock of k is taken the
+   call changes NOTHING -- no entry is created, no reference is kept, the caller stays outside (so
+   handleReq's fall-back, TryLock then Lock, takes exactly one reference); when it is free the
+   caller is in the critical section of k at once, referring to the entry the map holds for k *)
+Theorem C13_trylock : forall n sched t k, Z.of_nat n < 65536 ->
+  let s := exec2 (MutexMap.init n) sched in
+  nth_error (pcs s) t = Some Out ->
+  if try_ok s k
+  then exists e, nth_error (pcs (step2 s (t, k, true))) t = Some (Holding k e) /\
+                 lookup (tab (step2 s (t, k, true))) k = Some e
+  else step2 s (t, k, true) = s.
+Proof.
+  intros n sched t k Hn s Ht. pose proof (try_step_result s t k Ht) as H.
+  unfold step2. rewrite Ht. exact H.
+Qed.
+Print Assumptions C13_trylock.
 
 From GoCoap Require Dedup.Proofs Retx.Proofs Limiter.Proofs Blockwise.Proofs Blockwise.Config.
 
@@ -195,6 +226,64 @@ Proof.
   exact (proj1 (C13_all c lt le evs d Hack Hmr Hev Hdone Hd1 Hd2)).
 Qed.
 Print Assumptions C13_all_faults.
+
+From GoCoap Require Conn.MidTick.
+Module MT := GoCoap.Conn.MidTick.
+
+(* pending confirmables (midHandlerContainer) under housekeeping ticks INTERLEAVED with the
+   exchanges, every schedule (Range hands an entry out without the map lock; before the callback
+   runs the exchange may end by itself -- ACK/RST, the sender gives up, the ping is cancelled --
+   and its message ID may be taken by a new exchange): a message ID found in the table is one the
+   exchanges' own operations alone would have left there, stored by a registration that no end of
+   an exchange under that ID follows; so when every exchange that registered a continuation has
+   ended, the table is EMPTY *)
+Theorem C13_mid_tick_interleaved : forall c sch,
+  (forall m k, MT.has (MT.run c sch m) k = true -> MT.has (MT.env_run (MT.env_of sch) m) k = true) /\
+  (forall k, MT.has (MT.run c sch []) k = true ->
+     exists tr1 e tr2, MT.env_of sch = tr1 ++ MT.Start k e :: tr2 /\ ~ In (MT.End k) tr2) /\
+  ((forall k e tr1 tr2, MT.env_of sch = tr1 ++ MT.Start k e :: tr2 -> In (MT.End k) tr2) -> MT.run c sch [] = []).
+Proof.
+  intros c sch. split; [intros m k; apply MT.tick_adds_nothing|]. split; [|apply MT.all_ended_empty].
+  intros k H. apply MT.tick_adds_nothing in H. apply MT.key_from_start in H.
+  destruct H as [[H _]|H]; [discriminate|exact H].
+Qed.
+Print Assumptions C13_mid_tick_interleaved.
+
+(* ... every schedule: an entry that is expired at the tick's [now] when Range hands it out is gone
+   at the end of the pass (unless a new exchange takes its message ID meanwhile), whether it is
+   still there when the callback runs or its exchange has ended in between *)
+Theorem C13_mid_tick_expired : forall c pre k mid post m v,
+  MT.lookup (MT.run c pre m) k = Some v -> MT.is_expired c v = true ->
+  Forall (MT.no_start k) mid -> Forall (MT.item_no_start k) post ->
+  MT.has (MT.run c (pre ++ MT.Visit k mid :: post) m) k = false.
+Proof. exact MT.expired_fetched_gone. Qed.
+Print Assumptions C13_mid_tick_expired.
+
+(* ... and the undisturbed tick, any table, any visiting order: no entry whose deadline has passed
+   (or whose retransmissions are used up) survives a pass that reaches its key; a pass that reaches
+   every key once keeps every other entry *)
+Theorem C13_mid_tick_pass : forall c ord m k v, MT.lookup m k = Some v ->
+  (MT.is_expired c v = true -> In k ord -> MT.has (MT.tick c ord m) k = false) /\
+  (MT.is_expired c v = false -> NoDup ord -> MT.has (MT.tick c ord m) k = true).
+Proof.
+  intros c ord m k v L. split; [intros Ex Hin; exact (MT.tick_removes_expired c ord m k v L Ex Hin)|].
+  intros Ex ND. exact (MT.tick_keeps_unexpired c ord m k v L Ex ND).
+Qed.
+Print Assumptions C13_mid_tick_pass.
+
+(* non-trivial instances: two copies of a request contending for the per-ID lock (the second one's
+   TryLock fails, it waits in Lock), and a tick that holds an expired entry while its exchange is
+   acknowledged and the message ID is reused *)
+Example C13_round3_instance :
+  (let s := exec2 (MutexMap.init 2) [(0%nat, 7, true); (1%nat, 7, true); (1%nat, 7, false)] in
+   try_ok (exec2 (MutexMap.init 2) [(0%nat, 7, true)]) 7 = false /\
+   map (fun ke => (fst ke, cnt (heap s (snd ke)))) (tab s) = [(7, 2)] /\
+   tab (lock_cycle_contended (MutexMap.init 2) 7) = []) /\
+  (let c := MT.mkC 400000 2 140000 in
+   let e1 := MT.mkE 1 0 (Some 120000) 0 in let e2 := MT.mkE 2 0 (Some 7200000) 0 in let e3 := MT.mkE 3 0 None 0 in
+   MT.keys (MT.run c [MT.Env (MT.Start 5 e1); MT.Env (MT.Start 6 e2); MT.Visit 5 [MT.End 5; MT.Start 5 e3]; MT.Visit 6 []] []) = [6] /\
+   MT.run c [MT.Env (MT.Start 5 e1); MT.Visit 5 [MT.End 5]] [] = []).
+Proof. vm_compute. repeat split; reflexivity. Qed.
 
 (* non-trivial instances: a lost ping whose retransmissions cannot be written, and a cache of 40
    entries of which 35 expire in the same tick (keys visited in descending order) *)
